@@ -5,9 +5,13 @@ import GV.Lib.CborLite
                               NativeScript.evaluate / Evaluate / EvaluateWithGuards, Hash
     ledger/{allegra,conway,dijkstra}/rules.go : UtxoValidateNativeScripts
       (Mary/Alonzo/Babbage delegate to Allegra's).
-  The code is modelled as it is: the rule hands `evaluate` the validity start
-  with "absent" encoded as 0 and the TTL with "absent" AND "0" encoded as
-  MaxUint64.  `specEval` is the ledger's evalTimelock over optional bounds.
+  The code is modelled as it is (after the `fix:` commit that introduced
+  `common.ValidityBounds` / `EvaluateWithBounds`): the rule reads the presence of
+  the validity start / invalid-hereafter fields from the preserved body bytes and
+  hands `evaluate` nil for an absent bound; without preserved bytes (constructed
+  transactions) a zero value counts as absent.  The older `Evaluate` /
+  `EvaluateWithGuards` entry points keep their unsigned encoding.
+  `specEval` is the ledger's evalTimelock over optional bounds.
 -/
 namespace GV.Model.NativeScript
 open GV.Lib.CborLite
@@ -28,6 +32,8 @@ def max64 : Nat := 18446744073709551615
 structure GoCtx where
   validityStart : Nat
   validityEnd : Nat
+  noValidityStart : Bool := false
+  noValidityEnd : Bool := false
   keyHashes : List Bytes
   guards : Option (List (Nat × Bytes))
 
@@ -38,8 +44,8 @@ def eval (c : GoCtx) : Script → Bool
   | .all l => evalAll c l
   | .any l => evalAny c l
   | .nOfK n l => decide (n ≤ countTrue c l)           -- count >= s.N
-  | .before s => decide (s ≤ c.validityStart)         -- ctx.validityStart >= s.Slot
-  | .hereafter s => decide (c.validityEnd ≤ s)        -- ctx.validityEnd <= s.Slot
+  | .before s => !c.noValidityStart && decide (s ≤ c.validityStart)   -- !ctx.noValidityStart && ctx.validityStart >= s.Slot
+  | .hereafter s => !c.noValidityEnd && decide (c.validityEnd ≤ s)    -- !ctx.noValidityEnd && ctx.validityEnd <= s.Slot
   | .guard t h =>
     match c.guards with
     | none => false
@@ -60,23 +66,39 @@ structure TxCtx where
   start : Option Nat
   ttl : Option Nat
   keyHashes : List Bytes
+  /-- Dijkstra guards (body key 14) as credentials; `none` = no guards field / earlier era -/
+  guards : Option (List (Nat × Bytes)) := none
 
-/-- the context `UtxoValidateNativeScripts` builds (Allegra..Conway; Dijkstra without guards):
-    `tx.ValidityIntervalStart()` is 0 when absent, `tx.TTL()` is 0 when absent and
-    `if validityEnd == 0 { validityEnd = MaxUint64 }`. -/
-def goCtx (t : TxCtx) : GoCtx :=
+/-- `newCredentialSet`: an empty list is a nil set -/
+def credSet (g : Option (List (Nat × Bytes))) : Option (List (Nat × Bytes)) :=
+  match g with
+  | none => none
+  | some [] => none
+  | some l => some l
+
+/-- the context `UtxoValidateNativeScripts` builds via `common.ValidityBounds` and
+    `EvaluateWithBounds`.  `preserved` = the transaction carries its original bytes (every decoded
+    transaction): presence of body keys 8 / 3 is read from them; otherwise a zero value counts as
+    absent. -/
+def goCtx (t : TxCtx) (preserved : Bool := true) : GoCtx :=
+  let s := t.start.getD 0
   let e := t.ttl.getD 0
-  { validityStart := t.start.getD 0
-    validityEnd := if e = 0 then max64 else e
+  let hasStart := if preserved then t.start.isSome else s != 0
+  let hasEnd := if preserved then t.ttl.isSome else e != 0
+  { validityStart := if hasStart then s else 0
+    validityEnd := if hasEnd then e else 0
+    noValidityStart := !hasStart
+    noValidityEnd := !hasEnd
     keyHashes := t.keyHashes
-    guards := none }
+    guards := credSet t.guards }
 
 /-- index of the first script the rule reports as failed -/
 def firstFail (c : GoCtx) : List Script → Nat → Option Nat
   | [], _ => none
   | s :: r, i => if eval c s then firstFail c r (i + 1) else some i
 
-def ruleFirstFail (t : TxCtx) (l : List Script) : Option Nat := firstFail (goCtx t) l 0
+def ruleFirstFail (t : TxCtx) (l : List Script) (preserved : Bool := true) : Option Nat :=
+  firstFail (goCtx t preserved) l 0
 
 -- ------------------------------------------------------------------ ledger semantics
 
@@ -89,7 +111,7 @@ def specEval (t : TxCtx) : Script → Bool
   | .nOfK n l => decide (n ≤ specCount t l)
   | .before s => match t.start with | none => false | some st => decide (s ≤ st)
   | .hereafter s => match t.ttl with | none => false | some e => decide (e ≤ s)
-  | .guard _ _ => false   -- no guards in a `TxCtx`
+  | .guard ty h => match t.guards with | none => false | some g => g.contains (ty, h)
 def specAll (t : TxCtx) : List Script → Bool
   | [] => true
   | s :: r => specEval t s && specAll t r
@@ -102,10 +124,11 @@ def specCount (t : TxCtx) : List Script → Nat
 end
 
 mutual
-/-- the script mentions a bound at which the 0 / MaxUint64 encodings of "absent" lose information -/
+/-- without preserved bytes: the script mentions a bound at which "zero counts as absent" loses
+    information (a present validity start 0 against bound 0, a present invalid-hereafter 0) -/
 def boundary (t : TxCtx) : Script → Bool
-  | .before s => t.start.isNone && s == 0
-  | .hereafter s => (t.ttl.isNone && decide (max64 ≤ s)) || (t.ttl == some 0 && decide (s < max64))
+  | .before s => t.start == some 0 && s == 0
+  | .hereafter _ => t.ttl == some 0
   | .all l => boundaryL t l
   | .any l => boundaryL t l
   | .nOfK _ l => boundaryL t l
@@ -228,6 +251,17 @@ def parseI : Nat → Bytes → Option (List Script × List Bytes × Bytes)
         | none => none
         | some (l, sp, r') => some (p.script :: l, p.spans ++ sp, r')
 end
+
+/-- the Go struct `parseScript` builds for a type id (the `switch id` of `UnmarshalCBOR`) -/
+def ctorName (id : Nat) : Option String :=
+  if id = 0 then some "NativeScriptPubkey"
+  else if id = 1 then some "NativeScriptAll"
+  else if id = 2 then some "NativeScriptAny"
+  else if id = 3 then some "NativeScriptNofK"
+  else if id = 4 then some "NativeScriptInvalidBefore"
+  else if id = 5 then some "NativeScriptInvalidHereafter"
+  else if id = 6 then some "NativeScriptRequireGuard"
+  else none
 
 /-- a whole byte string as one script (what `NativeScript.UnmarshalCBOR` is handed) -/
 def decode (b : Bytes) : Option Parsed :=
